@@ -123,3 +123,19 @@ Definition same_state (a b : pset) : bool :=
   subsetN (noslot a) (noslot b) && subsetN (noslot b) (noslot a) &&
   subsetN (reserved a) (reserved b) && subsetN (reserved b) (reserved a) &&
   msgs_eqb (msgs a) (msgs b).
+
+(* ---------------------------------------------------------------- histories *)
+(* [reachable v s0 h s]: s is a possible state after the operations h (each with the seconds
+   elapsed before it), for some resolution of the map-iteration choices *)
+Inductive reachable (v : variant) (s0 : pset) : list (N * op) -> pset -> Prop :=
+| reach_nil : reachable v s0 [] s0
+| reach_step h s k o e s' :
+    reachable v s0 h s -> In (Ret e s') (step v s k o) -> reachable v s0 (h ++ [(k, o)]) s'.
+
+(* no operation of the history lies in the guard of the known finding *)
+Inductive unguarded (v : variant) (s0 : pset) : list (N * op) -> Prop :=
+| ung_nil : unguarded v s0 []
+| ung_step h k o :
+    unguarded v s0 h ->
+    (forall s, reachable v s0 h s -> guard_unreserve s o = false) ->
+    unguarded v s0 (h ++ [(k, o)]).
